@@ -1507,6 +1507,8 @@ def run(ctx, res):
     check_root(res, facts)
     check_vanish(res, facts)
     check_pass(res, facts)
+    from rules import c07_dft
+    c07_dft.check_dft(res, facts, ctx.tier)
     check_parfft(res, facts)
     check_lagrange(res, facts)
     check_bflysib(res, facts)
